@@ -2,7 +2,7 @@
    Model: Tls/Handshake.v (Finished exchange with adversary-chosen received values).
    The run-time part of the check is fault enumeration on the implementation. *)
 From GmVerif Require Import Base.ListX Base.Bytes Hash.SM3 Tls.Record12 Tls.KeySched
-  Tls.Handshake Tls.HandshakeProofs.
+  Tls.Handshake Tls.HandshakeProofs Tls.HsCodec Tls.HsCodecProofs.
 Local Open Scope nat_scope.
 
 (* decision rule (no assumption), any hash / Finished function: both sides done => each received
@@ -66,3 +66,358 @@ Theorem C10_both_done_same_transcript_partial :
   transcript b = transcript a /\ fin1_recv = first_send H F1 a /\ sec2 b = sec2 a.
 Proof. exact both_done_same_transcript_partial. Qed.
 Print Assumptions C10_both_done_same_transcript_partial.
+
+(* ===== handshake message layer (Tls/HsCodec.v: Impl models of the set_/get_ functions of src/tls.c,
+   tls12.c, tlcp.c; correspondence: props/C10/hscodec_harness.c against the extracted model) =====
+
+   (a) round trip: what a setter produced, the getter reads back -- with the length of the record *)
+Theorem C10_codec_get_set_handshake :
+  forall (rv t : N) (data r : list N),
+   set_handshake rv t data = Some r ->
+   get_handshake r = Some (t, data) /\ rec_wf r /\ length r = 9 + length data /\ rec_version r = rv.
+Proof. exact get_set_handshake. Qed.
+Print Assumptions C10_codec_get_set_handshake.
+
+Theorem C10_codec_get_set_client_hello :
+  forall (rv protocol : N) (random sid ciphers : list N) (exts : option (list N)) (r : list N),
+   set_client_hello rv protocol random sid ciphers exts = SOk r ->
+   length random = 32 -> get_client_hello r = Some (protocol, random, sid, flat_map e16N ciphers, exts).
+Proof. exact get_set_client_hello. Qed.
+Print Assumptions C10_codec_get_set_client_hello.
+Theorem C10_codec_get_set_server_hello :
+  forall (rv protocol : N) (random sid : list N) (cipher : N) (exts : option (list N)) (r : list N),
+   set_server_hello rv protocol random sid cipher exts = SOk r ->
+   length random = 32 ->
+   (rv <= protocol)%N ->
+   exts <> Some [] ->
+   (forall x : list N, exts = Some x -> (N.of_nat (length x) < 65536)%N) ->
+   get_server_hello r = Some (protocol, random, sid, cipher, exts).
+Proof. exact get_set_server_hello. Qed.
+Print Assumptions C10_codec_get_set_server_hello.
+Theorem C10_codec_get_set_certificate :
+  forall (cert_ok : list N -> bool) (rv : N) (certs : list (list N)) (r : list N),
+   set_certificate cert_ok rv certs = SOk r ->
+   chain_bytes certs <= max_certs ->
+   get_certificate cert_ok r = Some certs /\ length r = 12 + 3 * length certs + chain_bytes certs.
+Proof. exact get_set_certificate. Qed.
+Print Assumptions C10_codec_get_set_certificate.
+Theorem C10_codec_get_set_ske_ecdhe :
+  forall (point_ok : list N -> bool) (rv curve : N) (pt sg r : list N),
+   set_ske_ecdhe rv curve pt sg = SOk r ->
+   curve = 41%N ->
+   length pt = 65 ->
+   point_ok pt = true -> get_ske_ecdhe point_ok r = Some (41%N, pt, sg) /\ length r = 82 + length sg.
+Proof. exact get_set_ske_ecdhe. Qed.
+Print Assumptions C10_codec_get_set_ske_ecdhe.
+Theorem C10_codec_get_set_ske_pke :
+  forall (rv : N) (sg r : list N),
+   set_ske_pke rv sg = SOk r ->
+   get_ske_pke r = Some sg /\ length r = 11 + length sg /\ rv = TLS_protocol_tlcp.
+Proof. exact get_set_ske_pke. Qed.
+Print Assumptions C10_codec_get_set_ske_pke.
+Theorem C10_codec_get_set_certificate_request :
+  forall (rv : N) (types names r : list N),
+   set_certificate_request rv types names = SOk r ->
+   types <> [] ->
+   length types <= 255 ->
+   forallb cert_type_known types = true ->
+   names_wf (length names) names = true ->
+   get_certificate_request r = Some (types, names) /\ length r = 12 + length types + length names.
+Proof. exact get_set_certificate_request. Qed.
+Print Assumptions C10_codec_get_set_certificate_request.
+Theorem C10_codec_get_set_server_hello_done :
+  forall (rv : N) (r : list N),
+   set_server_hello_done rv = SOk r -> get_server_hello_done r = Some tt /\ length r = 9.
+Proof. exact get_set_server_hello_done. Qed.
+Print Assumptions C10_codec_get_set_server_hello_done.
+Theorem C10_codec_get_set_cke_ecdhe :
+  forall (point_ok : list N -> bool) (rv : N) (pt r : list N),
+   set_cke_ecdhe rv pt = SOk r ->
+   length pt = 65 -> point_ok pt = true -> get_cke_ecdhe point_ok r = Some pt /\ length r = 75.
+Proof. exact get_set_cke_ecdhe. Qed.
+Print Assumptions C10_codec_get_set_cke_ecdhe.
+Theorem C10_codec_get_set_cke_pke :
+  forall (rv : N) (e r : list N),
+   set_cke_pke rv e = SOk r -> get_cke_pke r = Some e /\ length r = 11 + length e.
+Proof. exact get_set_cke_pke. Qed.
+Print Assumptions C10_codec_get_set_cke_pke.
+Theorem C10_codec_get_set_certificate_verify :
+  forall (rv : N) (sg r : list N),
+   set_certificate_verify rv sg = SOk r -> get_certificate_verify r = Some sg /\ length r = 11 + length sg.
+Proof. exact get_set_certificate_verify. Qed.
+Print Assumptions C10_codec_get_set_certificate_verify.
+Theorem C10_codec_get_set_finished :
+  forall (rv : N) (vd r : list N),
+   set_finished rv vd = SOk r -> get_finished r = Some vd /\ length r = 9 + length vd.
+Proof. exact get_set_finished. Qed.
+Print Assumptions C10_codec_get_set_finished.
+
+(* (b) capacity: no setter output exceeds 5 + 4 + 16380 = 16389 <= 5 + 2^14 bytes; it is a well-formed
+   handshake record *)
+Theorem C10_codec_set_handshake_bound :
+  forall (rv t : N) (data r : list N),
+   set_handshake rv t data = Some r -> (N.of_nat (length r) <= 16389)%N.
+Proof. exact set_handshake_bound. Qed.
+Print Assumptions C10_codec_set_handshake_bound.
+Theorem C10_codec_setters_within_capacity :
+  forall (cert_ok : list N -> bool) (r : list N),
+   made_by_setter cert_ok r ->
+   rec_wf r /\ (N.of_nat (length r) <= 16389)%N /\ rec_type r = 22%N /\ msg_wf (hs_message r).
+Proof. exact setters_within_capacity. Qed.
+Print Assumptions C10_codec_setters_within_capacity.
+
+(* (c) strictness.  [rec_wf]: the buffer holds exactly the declared 5 + length bytes; [bytes_ok]: bytes.
+   tls_record_get_handshake accepts exactly the records tls_record_set_handshake produces *)
+Theorem C10_codec_get_handshake_canonical :
+  forall (r : list N) (t : N) (body : list N),
+   rec_wf r ->
+   bytes_ok r ->
+   get_handshake r = Some (t, body) ->
+   r = frame (rec_version r) t body /\ set_handshake (rec_version r) t body = Some r.
+Proof. exact get_handshake_canonical. Qed.
+Print Assumptions C10_codec_get_handshake_canonical.
+Theorem C10_codec_get_handshake_message_det :
+  forall (r r' : list N) (tp tp' : N * list N),
+   rec_wf r ->
+   rec_wf r' ->
+   hs_message r = hs_message r' -> get_handshake r = Some tp -> get_handshake r' = Some tp' -> tp = tp'.
+Proof. exact get_handshake_message_det. Qed.
+Print Assumptions C10_codec_get_handshake_message_det.
+
+(* (c) per message: an accepted record is the one encoding of the fields the getter returned: no other
+   length fields, no trailing bytes.  (ClientHello, Certificate: not so, see the observations in
+   Tls/HsCodecProofs.v: compression methods unconstrained, bytes after the list ignored.) *)
+Theorem C10_codec_get_finished_canonical :
+  forall r vd : list N,
+   rec_wf r ->
+   bytes_ok r ->
+   get_finished r = Some vd -> r = frame (rec_version r) 20 vd /\ set_finished (rec_version r) vd = SOk r.
+Proof. exact get_finished_canonical. Qed.
+Print Assumptions C10_codec_get_finished_canonical.
+Theorem C10_codec_get_server_hello_done_canonical :
+  forall r : list N,
+   rec_wf r ->
+   bytes_ok r ->
+   get_server_hello_done r = Some tt ->
+   r = frame (rec_version r) 14 [] /\ set_server_hello_done (rec_version r) = SOk r.
+Proof. exact get_server_hello_done_canonical. Qed.
+Print Assumptions C10_codec_get_server_hello_done_canonical.
+Theorem C10_codec_get_cke_pke_canonical :
+  forall r e : list N,
+   rec_wf r -> bytes_ok r -> get_cke_pke r = Some e -> r = frame (rec_version r) 16 (arr16 e).
+Proof. exact get_cke_pke_canonical. Qed.
+Print Assumptions C10_codec_get_cke_pke_canonical.
+Theorem C10_codec_get_certificate_verify_canonical :
+  forall r s : list N,
+   rec_wf r -> bytes_ok r -> get_certificate_verify r = Some s -> r = frame (rec_version r) 15 (arr16 s).
+Proof. exact get_certificate_verify_canonical. Qed.
+Print Assumptions C10_codec_get_certificate_verify_canonical.
+Theorem C10_codec_get_ske_pke_canonical :
+  forall r s : list N,
+   rec_wf r -> bytes_ok r -> get_ske_pke r = Some s -> r = frame TLS_protocol_tlcp 12 (arr16 s).
+Proof. exact get_ske_pke_canonical. Qed.
+Print Assumptions C10_codec_get_ske_pke_canonical.
+Theorem C10_codec_get_cke_ecdhe_canonical :
+  forall (point_ok : list N -> bool) (r pt : list N),
+   rec_wf r ->
+   bytes_ok r ->
+   get_cke_ecdhe point_ok r = Some pt ->
+   r = frame (rec_version r) 16 ([65%N] ++ pt) /\ length pt = 65 /\ point_ok pt = true.
+Proof. exact get_cke_ecdhe_canonical. Qed.
+Print Assumptions C10_codec_get_cke_ecdhe_canonical.
+Theorem C10_codec_get_ske_ecdhe_canonical :
+  forall (point_ok : list N -> bool) (r : list N) (c : N) (pt sg : list N),
+   rec_wf r ->
+   bytes_ok r ->
+   get_ske_ecdhe point_ok r = Some (c, pt, sg) ->
+   r = frame (rec_version r) 12 ([3%N] ++ e16N 41 ++ [65%N] ++ pt ++ e16N 1800 ++ arr16 sg) /\
+   c = 41%N /\ length pt = 65 /\ point_ok pt = true.
+Proof. exact get_ske_ecdhe_canonical. Qed.
+Print Assumptions C10_codec_get_ske_ecdhe_canonical.
+Theorem C10_codec_get_certificate_request_canonical :
+  forall r ty nm : list N,
+   rec_wf r ->
+   bytes_ok r ->
+   get_certificate_request r = Some (ty, nm) ->
+   r = frame (rec_version r) 13 (arr8 ty ++ arr16 nm) /\
+   ty <> [] /\ length ty < 256 /\ forallb cert_type_known ty = true /\ names_wf (length nm) nm = true.
+Proof. exact get_certificate_request_canonical. Qed.
+Print Assumptions C10_codec_get_certificate_request_canonical.
+Theorem C10_codec_get_server_hello_canonical :
+  forall (r : list N) (ver : N) (random sid : list N) (cipher : N) (exts : option (list N)),
+   rec_wf r ->
+   bytes_ok r ->
+   get_server_hello r = Some (ver, random, sid, cipher, exts) ->
+   r =
+   frame (rec_version r) 2
+     (e16N ver ++
+      random ++ arr8 sid ++ e16N cipher ++ [0%N] ++ match exts with
+                                                    | Some x => arr16 x
+                                                    | None => []
+                                                    end) /\
+   length random = 32 /\ length sid <= 32 /\ (rec_version r <= ver)%N /\ exts <> Some [].
+Proof. exact get_server_hello_canonical. Qed.
+Print Assumptions C10_codec_get_server_hello_canonical.
+Theorem C10_codec_finished_unique_encoding :
+  forall r r' vd : list N,
+   rec_wf r ->
+   bytes_ok r ->
+   rec_wf r' ->
+   bytes_ok r' ->
+   rec_version r = rec_version r' -> get_finished r = Some vd -> get_finished r' = Some vd -> r = r'.
+Proof. exact finished_unique_encoding. Qed.
+Print Assumptions C10_codec_finished_unique_encoding.
+Theorem C10_codec_server_hello_unique_encoding :
+  forall (r r' : list N) (x : N * list N * list N * N * option (list N)),
+   rec_wf r ->
+   bytes_ok r ->
+   rec_wf r' ->
+   bytes_ok r' ->
+   rec_version r = rec_version r' -> get_server_hello r = Some x -> get_server_hello r' = Some x -> r = r'.
+Proof. exact server_hello_unique_encoding. Qed.
+Print Assumptions C10_codec_server_hello_unique_encoding.
+
+(* (d) injectivity: one record encodes one tuple of fields *)
+Theorem C10_codec_set_handshake_inj :
+  forall (rv rv' t t' : N) (d d' r : list N),
+   set_handshake rv t d = Some r -> set_handshake rv' t' d' = Some r -> rv = rv' /\ t = t' /\ d = d'.
+Proof. exact set_handshake_inj. Qed.
+Print Assumptions C10_codec_set_handshake_inj.
+Theorem C10_codec_set_client_hello_inj :
+  forall (rv rv' pv pv' : N) (rnd rnd' sid sid' cs cs' : list N) (ex ex' : option (list N)) (r : list N),
+   set_client_hello rv pv rnd sid cs ex = SOk r ->
+   set_client_hello rv' pv' rnd' sid' cs' ex' = SOk r ->
+   length rnd = 32 -> length rnd' = 32 -> pv = pv' /\ rnd = rnd' /\ sid = sid' /\ cs = cs' /\ ex = ex'.
+Proof. exact set_client_hello_inj. Qed.
+Print Assumptions C10_codec_set_client_hello_inj.
+Theorem C10_codec_set_server_hello_inj :
+  forall (rv rv' pv pv' : N) (rnd rnd' sid sid' : list N) (c c' : N) (ex ex' : option (list N))
+     (r : list N),
+   set_server_hello rv pv rnd sid c ex = SOk r ->
+   set_server_hello rv' pv' rnd' sid' c' ex' = SOk r ->
+   length rnd = 32 ->
+   (rv <= pv)%N ->
+   ex <> Some [] ->
+   (forall x : list N, ex = Some x -> (N.of_nat (length x) < 65536)%N) ->
+   length rnd' = 32 ->
+   (rv' <= pv')%N ->
+   ex' <> Some [] ->
+   (forall x : list N, ex' = Some x -> (N.of_nat (length x) < 65536)%N) ->
+   pv = pv' /\ rnd = rnd' /\ sid = sid' /\ c = c' /\ ex = ex'.
+Proof. exact set_server_hello_inj. Qed.
+Print Assumptions C10_codec_set_server_hello_inj.
+Theorem C10_codec_set_certificate_inj :
+  forall (cert_ok : list N -> bool) (rv rv' : N) (cs cs' : list (list N)) (r : list N),
+   set_certificate cert_ok rv cs = SOk r ->
+   set_certificate cert_ok rv' cs' = SOk r ->
+   chain_bytes cs <= max_certs -> chain_bytes cs' <= max_certs -> cs = cs'.
+Proof. exact set_certificate_inj. Qed.
+Print Assumptions C10_codec_set_certificate_inj.
+Theorem C10_codec_set_ske_ecdhe_inj :
+  forall (point_ok : list N -> bool) (rv rv' : N) (pt pt' sg sg' r : list N),
+   set_ske_ecdhe rv 41 pt sg = SOk r ->
+   set_ske_ecdhe rv' 41 pt' sg' = SOk r ->
+   length pt = 65 -> point_ok pt = true -> length pt' = 65 -> point_ok pt' = true -> pt = pt' /\ sg = sg'.
+Proof. exact set_ske_ecdhe_inj. Qed.
+Print Assumptions C10_codec_set_ske_ecdhe_inj.
+Theorem C10_codec_set_ske_pke_inj :
+  forall (rv rv' : N) (x y r : list N), set_ske_pke rv x = SOk r -> set_ske_pke rv' y = SOk r -> x = y.
+Proof. exact set_ske_pke_inj. Qed.
+Print Assumptions C10_codec_set_ske_pke_inj.
+Theorem C10_codec_set_certificate_request_inj :
+  forall (rv rv' : N) (ty ty' nm nm' r : list N),
+   set_certificate_request rv ty nm = SOk r ->
+   set_certificate_request rv' ty' nm' = SOk r ->
+   ty <> [] ->
+   length ty <= 255 ->
+   forallb cert_type_known ty = true ->
+   names_wf (length nm) nm = true ->
+   ty' <> [] ->
+   length ty' <= 255 ->
+   forallb cert_type_known ty' = true -> names_wf (length nm') nm' = true -> ty = ty' /\ nm = nm'.
+Proof. exact set_certificate_request_inj. Qed.
+Print Assumptions C10_codec_set_certificate_request_inj.
+Theorem C10_codec_set_cke_ecdhe_inj :
+  forall (point_ok : list N -> bool) (rv rv' : N) (pt pt' r : list N),
+   set_cke_ecdhe rv pt = SOk r ->
+   set_cke_ecdhe rv' pt' = SOk r ->
+   length pt = 65 -> point_ok pt = true -> length pt' = 65 -> point_ok pt' = true -> pt = pt'.
+Proof. exact set_cke_ecdhe_inj. Qed.
+Print Assumptions C10_codec_set_cke_ecdhe_inj.
+Theorem C10_codec_set_cke_pke_inj :
+  forall (rv rv' : N) (x y r : list N), set_cke_pke rv x = SOk r -> set_cke_pke rv' y = SOk r -> x = y.
+Proof. exact set_cke_pke_inj. Qed.
+Print Assumptions C10_codec_set_cke_pke_inj.
+Theorem C10_codec_set_certificate_verify_inj :
+  forall (rv rv' : N) (x y r : list N),
+   set_certificate_verify rv x = SOk r -> set_certificate_verify rv' y = SOk r -> x = y.
+Proof. exact set_certificate_verify_inj. Qed.
+Print Assumptions C10_codec_set_certificate_verify_inj.
+Theorem C10_codec_set_finished_inj :
+  forall (rv rv' : N) (x y r : list N), set_finished rv x = SOk r -> set_finished rv' y = SOk r -> x = y.
+Proof. exact set_finished_inj. Qed.
+Print Assumptions C10_codec_set_finished_inj.
+
+(* (d) handshake messages are self-delimiting: a transcript determines the sequence of messages, and a
+   message determines the (type, body) an endpoint saw *)
+Theorem C10_codec_frames_unique :
+  forall ms ms' : list (list N),
+   Forall msg_wf ms -> Forall msg_wf ms' -> concat ms = concat ms' -> ms = ms'.
+Proof. exact frames_unique. Qed.
+Print Assumptions C10_codec_frames_unique.
+Theorem C10_codec_hs_rec_det :
+  forall (r r' : list N) (t t' : N) (body body' : list N),
+   hs_rec r t body -> hs_rec r' t' body' -> hs_message r = hs_message r' -> t = t' /\ body = body'.
+Proof. exact hs_rec_det. Qed.
+Print Assumptions C10_codec_hs_rec_det.
+Theorem C10_codec_same_bytes_same_seen :
+  forall la lb : hs_log,
+   log_ok la -> log_ok lb -> log_bytes la = log_bytes lb -> log_seen la = log_seen lb.
+Proof. exact same_bytes_same_seen. Qed.
+Print Assumptions C10_codec_same_bytes_same_seen.
+
+(* (d) composed with the Finished exchange: under the premises of C10_both_done_same_transcript_partial,
+   if both sides complete they saw the same sequence of handshake (type, body); read as detection: a
+   handshake record altered so that the receiver's tls_record_get_handshake result differs from what the sender
+   encoded (or a dropped / added / reordered one) makes at least one side fail its Finished check *)
+Theorem C10_codec_both_done_same_messages_partial :
+  forall (H : list N -> list N) (F1 F2 : list N -> list N -> list N) (fin_msg : list N -> list N)
+     (a b : party) (la lb : hs_log) (fin1_recv fin2_recv : list N),
+   log_ok la ->
+   log_ok lb ->
+   transcript a = log_bytes la ->
+   transcript b = log_bytes lb ->
+   second_done H F1 b fin1_recv = true ->
+   first_done H F1 F2 fin_msg a fin2_recv = true ->
+   fin2_recv = second_send H F2 fin_msg b fin1_recv ->
+   (F2 (sec2 b) (H (transcript b ++ fin_msg fin1_recv)) =
+    F2 (sec2 a) (H (transcript a ++ fin_msg (first_send H F1 a))) ->
+    sec2 b = sec2 a /\
+    H (transcript b ++ fin_msg fin1_recv) = H (transcript a ++ fin_msg (first_send H F1 a))) ->
+   (H (transcript b ++ fin_msg fin1_recv) = H (transcript a ++ fin_msg (first_send H F1 a)) ->
+    transcript b ++ fin_msg fin1_recv = transcript a ++ fin_msg (first_send H F1 a)) ->
+   length (fin_msg fin1_recv) = length (fin_msg (first_send H F1 a)) ->
+   (fin_msg fin1_recv = fin_msg (first_send H F1 a) -> fin1_recv = first_send H F1 a) ->
+   log_seen lb = log_seen la /\ fin1_recv = first_send H F1 a /\ sec2 b = sec2 a.
+Proof. exact both_done_same_messages_partial. Qed.
+Print Assumptions C10_codec_both_done_same_messages_partial.
+Theorem C10_codec_altered_handshake_record_detected_partial :
+  forall (H : list N -> list N) (F1 F2 : list N -> list N -> list N) (fin_msg : list N -> list N)
+     (a b : party) (la lb : hs_log) (fin1_recv fin2_recv : list N),
+   log_ok la ->
+   log_ok lb ->
+   transcript a = log_bytes la ->
+   transcript b = log_bytes lb ->
+   log_seen lb <> log_seen la ->
+   fin2_recv = second_send H F2 fin_msg b fin1_recv ->
+   (F2 (sec2 b) (H (transcript b ++ fin_msg fin1_recv)) =
+    F2 (sec2 a) (H (transcript a ++ fin_msg (first_send H F1 a))) ->
+    sec2 b = sec2 a /\
+    H (transcript b ++ fin_msg fin1_recv) = H (transcript a ++ fin_msg (first_send H F1 a))) ->
+   (H (transcript b ++ fin_msg fin1_recv) = H (transcript a ++ fin_msg (first_send H F1 a)) ->
+    transcript b ++ fin_msg fin1_recv = transcript a ++ fin_msg (first_send H F1 a)) ->
+   length (fin_msg fin1_recv) = length (fin_msg (first_send H F1 a)) ->
+   (fin_msg fin1_recv = fin_msg (first_send H F1 a) -> fin1_recv = first_send H F1 a) ->
+   second_done H F1 b fin1_recv = false \/ first_done H F1 F2 fin_msg a fin2_recv = false.
+Proof. exact altered_handshake_record_detected_partial. Qed.
+Print Assumptions C10_codec_altered_handshake_record_detected_partial.
